@@ -504,7 +504,7 @@ theorem round_trip (O : Oracles) (opts : DeserOpts) : ∀ (f : FieldDecl) (v : P
       simp only [inFragOpt, and_true_iff] at hf
       obtain ⟨⟨⟨h0, hnn⟩, hcg⟩, hfg⟩ := hf
       have hnn' : v.isNone = false := by simpa using hnn
-      have hf0 : f = .noneF := by cases f <;> simp [isNoneF] at h0 <;> rfl
+      have hf0 : f = .noneF := by cases f <;> simp [isNoneDecl] at h0 <;> rfl
       subst hf0
       rcases round_trip O opts g v hcg hfg with ⟨j, h1, h2, h3, h4, h5⟩
       exact rt_optional O opts g v j hnn' (shallowOk_of_frag O g v hcg hfg) h1 h2 h3 h4 h5
